@@ -201,6 +201,8 @@ func runOnce(in Sx) Sx {
 		return runDuplex(in)
 	case 11:
 		return runDirect(in)
+	case 12:
+		return runParallel(in)
 	case 6:
 		msg := lcg(in.At(6).Uint64(), in.At(7).AsInt())
 		one := func(key, iv []byte) (bool, []byte) {
@@ -940,6 +942,7 @@ func gen(a Args, out *Out) {
 	structuredKeyCases(a, out, rng.Fork())
 	finishSweeps()
 	duplexCases(a, out, rng.Fork())
+	parallelCases(a, out, rng.Fork())
 }
 
 // one secret handed to every factory name inside one process, in several creation orders and
